@@ -120,6 +120,7 @@ func c04Sessions(c *Ctx) {
 		}
 		expect := map[string]int64{}
 		var removers sync.Map
+		c.Journal(fmt.Sprintf("C04 handler session %d (seed %d)", s, c.Seed))
 		sess, err := newSession(nil, nil)
 		if err != nil {
 			c.Res.Inconclusive++
